@@ -371,6 +371,11 @@ DOWNREF:
 
 		switch refable := value.(type) {
 		case *spec.Schema:
+			if refable == nil {
+				// the pointer designates an optional part which the target schema does not have
+				return nil, ErrNoSchema(currentRef.String())
+			}
+
 			if refable.Ref.String() == "" {
 				break DOWNREF
 			}
@@ -383,12 +388,22 @@ DOWNREF:
 			currentRef = refable.Ref
 
 		case *spec.SchemaOrArray:
+			if refable == nil {
+				// the pointer designates an optional part which the target schema does not have
+				return nil, ErrNoSchema(currentRef.String())
+			}
+
 			if refable.Schema == nil || refable.Schema != nil && refable.Schema.Ref.String() == "" {
 				break DOWNREF
 			}
 			currentRef = refable.Schema.Ref
 
 		case *spec.SchemaOrBool:
+			if refable == nil {
+				// the pointer designates an optional part which the target schema does not have
+				return nil, ErrNoSchema(currentRef.String())
+			}
+
 			if refable.Schema == nil || refable.Schema != nil && refable.Schema.Ref.String() == "" {
 				break DOWNREF
 			}
